@@ -131,11 +131,13 @@ pub struct Out {
     pub header: String,
     pub cases: Vec<Case>,
     pub stats: std::collections::BTreeMap<String, u64>,
+    /// extra vernacular lines written after the header of every shard (e.g. interned constants)
+    pub prelude: Vec<String>,
 }
 
 impl Out {
     pub fn new(dir: &Path, header: &str) -> Self {
-        Out { dir: dir.to_path_buf(), header: header.into(), cases: vec![], stats: Default::default() }
+        Out { dir: dir.to_path_buf(), header: header.into(), cases: vec![], stats: Default::default(), prelude: vec![] }
     }
     pub fn stat(&mut self, k: &str, n: u64) {
         *self.stats.entry(k.to_string()).or_insert(0) += n;
@@ -170,6 +172,9 @@ impl Out {
             );
             writeln!(f, "{}", self.header).unwrap();
             writeln!(f, "Local Open Scope N_scope.").unwrap();
+            for l in &self.prelude {
+                writeln!(f, "{}", l).unwrap();
+            }
             for (i, c) in self.cases.iter().enumerate().skip(sh * per_shard).take(per_shard) {
                 writeln!(f, "Eval vm_compute in (Tag {}, {}).", i, c.coq).unwrap();
             }
